@@ -158,11 +158,21 @@ fn response_like(rng: &mut Rng) -> (&'static str, V) {
     };
     let pick_text = |rng: &mut Rng, names: &[&str]| -> V {
         let base = *rng.pick(names);
-        match rng.below(8) {
+        match rng.below(10) {
             0 => t(&base.to_uppercase()),
             1 => t(&base[..base.len() - 1]),
             2 => t(&format!("{}x", base)),
             3 => t(""),
+            4 => {
+                // a multi-byte character at any position of a known name
+                let k = rng.usize_below(base.len() + 1);
+                let ch = ["é", "€", "😀"][rng.usize_below(3)];
+                t(&format!("{}{}{}", &base[..k], ch, &base[k..]))
+            }
+            5 => {
+                let n = rng.usize_below(24);
+                V::T(schema::utf8_text(rng, n))
+            }
             _ => t(base),
         }
     };
